@@ -86,6 +86,45 @@ void h_set(void) {
   VERIF_CANARY();
 }
 
+/* ---- composition of the store path with the thread-exit walk: the slot in which set(k, v) puts the value is the slot the
+   destructor walk attributes to key k.  (set and get agree with each other under ANY bijective numbering of the slots;
+   the walk derives a slot's key from its position: child i of a node that covers the keys [base, base + stride) covers
+   [base + i * stride/4, ...) and entry e of a leaf is key base + e -- that numbering is the contract proved for the real
+   walk in jobs c11.destructors_rec.d*.)  Here: real set, then the slot is looked up by the walk's numbering. */
+static myth_tls_tree_node_t * child_of(myth_tls_tree_node_t * n, int c) {      /* constant index per branch: no symbolic index into the union */
+  if (c == 0) return n->children[0];
+  if (c == 1) return n->children[1];
+  if (c == 2) return n->children[2];
+  return n->children[3];
+}
+static void * leaf_value(myth_tls_tree_node_t * n, int e) {
+  myth_tls_entry_t * ent = n->entries;           /* raw memory beyond entries[1]: through a pointer variable */
+  return ent[e].value;
+}
+void h_set_then_walk(void) {
+  build_tree();
+  int idx = nondet_int(), d;
+  __CPROVER_assume(0 <= idx && idx < myth_tls_n_keys);
+  int r = myth_tls_tree_set(&T, idx, (void *)&VAL[0]);
+  __CPROVER_assume(r == 0);
+  myth_tls_tree_node_t * n = T.root;
+  int base = 0, stride = myth_tls_n_keys;
+  __CPROVER_assert(n != 0, "C11 store/walk: the tree has a root after a store");
+  for (d = 0; d < myth_tls_tree_depth; d++) {
+    int cs = stride >> myth_tls_tree_node_log_n_children;
+    int c = (idx - base) / cs;
+    __CPROVER_assert(0 <= c && c < myth_tls_tree_node_n_children, "C11 store/walk: child number in range");
+    n = child_of(n, c);
+    __CPROVER_assert(n != 0, "C11 store/walk: the node the walk will visit for key k exists after set(k, v)");
+    __CPROVER_assume(n != 0);
+    base += c * cs; stride = cs;
+  }
+  __CPROVER_assert(stride == myth_tls_tree_node_n_entries_in_leaf && 0 <= idx - base && idx - base < stride, "C11 store/walk: leaf covers 16 keys");
+  __CPROVER_assert(leaf_value(n, idx - base) == (void *)&VAL[0],
+                   "C11 store/walk: the value stored under key k sits in the slot that the thread-exit walk attributes to key k (so it is handed to the destructor of key k, not of another key)");
+  VERIF_CANARY();
+}
+
 void h_init(void) {
   __CPROVER_havoc_object(&T);
   myth_tls_tree_init(&T);
